@@ -26,7 +26,7 @@ their bytes alive whatever the arena does next.
 
 ASSUMPTIONS = ['ByteArena::read_n semantics (C17)']
 
-FLOORS = {'R8.1': 7, 'R8.2': 4, 'R8.3': 3, 'R8.4': 5, 'R8.5': 1}
+FLOORS = {'R8.1': 8, 'R8.2': 4, 'R8.3': 3, 'R8.4': 5, 'R8.5': 1}
 
 PUMP = 'hcobs::stream_reader::StreamChunker::pump'
 ASLICE = 'byte_arena::AnchoredSlice'
@@ -99,6 +99,11 @@ def r8_1(cx):
     cx.check(K is not None, 'loop-guard', fn, rd.loc(), 'refill only while buf.len() < %s' % K, fail_detail='the refill is not guarded by buf.len() < K')
     if K is None:
         return
+    # what is left in the buffer when the stream ends (fewer than K bytes) is handed out without being looked at:
+    # it must be too short to hold a stuff sequence
+    seqlen = len(cx.prog.const_bytes('hcobs::STUFF_SEQUENCE'))
+    cx.check(K <= seqlen, 'carry-shorter-than-sentinel', fn, rd.loc(), 'the refill loop runs while fewer than %d bytes are buffered: the end-of-stream leftover (< %d bytes) cannot hold FE FD' % (K, seqlen),
+             fail_detail='the refill loop runs while buf.len() < %d: at end of stream up to %d buffered bytes are emitted as Data unexamined, enough to hide a whole stuff sequence' % (K, K - 1))
     cnt = rd.arg(2)
     lb = lower_bound(cnt)
     cx.count_sites()
